@@ -331,6 +331,9 @@ class LTSSMController(Elaboratable):
                 with m.If(self.no_link_partner_detected):
                     transition_to_state("Rx.Detect.Quiet")
 
+                # A warm reset restarts receiver detection from Rx.Detect.Reset.
+                handle_warm_resets()
+
 
             # Rx.Detect.Quiet -- we've performed a link detection, but didn't detect anyone.
             # We'll wait here until our next detection cycle, saving the power of performing
@@ -343,6 +346,9 @@ class LTSSMController(Elaboratable):
 
                 # After 12ms, try again.
                 transition_on_timeout(12e-3, to="Rx.Detect.Active")
+
+                # A warm reset restarts receiver detection from Rx.Detect.Reset.
+                handle_warm_resets()
 
 
             # Polling.LFPS -- now that we know there's someone listening on the other side, we'll
@@ -392,6 +398,10 @@ class LTSSMController(Elaboratable):
                     transition_on_timeout(360e-3, to="Compliance")
                 with m.Else():
                     transition_on_timeout(360e-3, to="SS.Disabled.Default")
+
+                # A warm reset takes us back to Rx.Detect.Reset, as in every later state: what we know
+                # about our link partner predates the reset.
+                handle_warm_resets()
 
 
 
